@@ -97,6 +97,11 @@ func genC05(seed uint64, tier string) *world.Scenario {
 		if fkind == "hwmon" {
 			preseedRpmCurve(sc, f.ID, linearRpmCurve(f.Plant.StartThr, 255, f.Plant.MaxRpm))
 		}
+		if fr := kernel.NewRand(seed, fmt.Sprintf("c05.firstread.%d", i)); fr.Bool(0.15) {
+			// the very first read of the PWM value fails (driver not ready yet): everything after it is normal,
+			// and third-party changes are counted like on any other fan
+			sc.Faults = append(sc.Faults, world.FaultSpec{Op: "read", Target: "fan:" + f.ID + ":pwm", Nth: 0, Count: 1, Kind: kernel.Pick(fr, "eio", "empty", "garbage")})
+		}
 		sc.Fans = append(sc.Fans, f)
 		if interf {
 			ne := r.Range(1, 3)
